@@ -17,9 +17,14 @@ Proof. intro H. unfold load_module. rewrite H. reflexivity. Qed.
 Lemma run_body_never_none prog : forall st m file, snd (run_body rq st m file prog) <> RNone.
 Proof.
   induction prog as [|i prog IH]; intros st m file; cbn [run_body]; [discriminate|].
-  destruct i as [|k v|r catch|t]; try apply IH; [|discriminate].
-  destruct (rq st (pdir (parse file)) r) as [st1 x].
-  destruct x; cbn [snd]; try apply IH; try (destruct catch; [apply IH|cbn [snd]; discriminate]). discriminate.
+  destruct i as [|k v|r catch|t|r|t]; try apply IH; [|discriminate|].
+  - destruct (rq st (pdir (parse file)) r) as [st1 x].
+    destruct x; cbn [snd]; try apply IH; try (destruct catch; [apply IH|cbn [snd]; discriminate]). discriminate.
+  - destruct (rq st (pdir (parse file)) t) as [st1 x].
+    destruct x as [m'| | | |]; cbn [snd]; try apply IH; [|discriminate].
+    destruct (owner_file (log_event st1 file t (outcome_of st1 (ROk m'))) m') as [f'|]; [|apply IH].
+    destruct (run_lazies rq (log_event st1 file t (outcome_of st1 (ROk m'))) f' (lazies_of (log_event st1 file t (outcome_of st1 (ROk m'))) m')) as [st3 oof].
+    destruct oof; [cbn [snd]; discriminate|apply IH].
 Qed.
 
 Lemma throw_passes_uncaught st m file r rest st1 t :
@@ -130,6 +135,11 @@ Proof.
   apply nsame_owner_eq; [reflexivity|]. intro j. unfold native_owner, set_exp. cbn. rewrite nth_upd_nth.
   destruct (Nat.eqb m j); [|reflexivity]. destruct (nth_error (store st) j); reflexivity.
 Qed.
+Lemma ns_add_lazy st m r : nsame st (add_lazy st m r).
+Proof.
+  apply nsame_owner_eq; [reflexivity|]. intro j. unfold native_owner, add_lazy. cbn. rewrite nth_upd_nth.
+  destruct (Nat.eqb m j); [|reflexivity]. destruct (nth_error (store st) j); reflexivity.
+Qed.
 Lemma ns_new_module st o : nsame st (fst (new_module st o)).
 Proof.
   split; [reflexivity|]. intros m nk H. rewrite native_owner_old; [exact H|]. eapply native_owner_lt. exact H.
@@ -213,20 +223,45 @@ Hypothesis Hrq : forall st d r, NInv nr st -> ngood nr st (fst (rq st d r)).
 Lemma ngood_ns st st' : nsame st st' -> NInv nr st -> ngood nr st st'.
 Proof. apply nsame_ngood. Qed.
 
+Lemma run_lazies_ngood reqs : forall st f, NInv nr st -> ngood nr st (fst (run_lazies rq st f reqs)).
+Proof.
+  induction reqs as [|r reqs IH]; intros st f HI; cbn [run_lazies].
+  - apply ngood_refl. exact HI.
+  - pose proof (Hrq st (pdir (parse f)) r HI) as G1. destruct (rq st (pdir (parse f)) r) as [st1 x]. cbn [fst] in G1.
+    pose proof (ngood_ns _ _ (ns_log_event st1 f r (outcome_of st1 x)) (proj1 G1)) as G2.
+    assert (G : ngood nr st (log_event st1 f r (outcome_of st1 x))) by exact (ngood_trans _ _ _ _ G1 G2).
+    assert (Hc : ngood nr st (fst (run_lazies rq (log_event st1 f r (outcome_of st1 x)) f reqs)))
+      by (eapply ngood_trans; [exact G|apply IH; exact (proj1 G)]).
+    destruct x; cbn [fst]; try exact Hc. exact G.
+Qed.
+
 Lemma run_body_ngood prog : forall st m file, NInv nr st -> ngood nr st (fst (run_body rq st m file prog)).
 Proof.
   induction prog as [|i prog IH]; intros st m file HI; cbn [run_body].
   - apply ngood_refl. exact HI.
-  - destruct i as [|k v|r catch|t].
+  - destruct i as [|k v|r catch|t|r|t].
     + pose proof (ngood_ns _ _ (ns_bump st file) HI) as G. eapply ngood_trans; [exact G|apply IH; exact (proj1 G)].
     + pose proof (ngood_ns _ _ (ns_set_exp st m k v) HI) as G. eapply ngood_trans; [exact G|apply IH; exact (proj1 G)].
     + pose proof (Hrq st (pdir (parse file)) r HI) as G1. destruct (rq st (pdir (parse file)) r) as [st1 x]. cbn [fst] in G1.
       pose proof (ngood_ns _ _ (ns_log_event st1 file r (outcome_of st1 x)) (proj1 G1)) as G2.
-      assert (G : ngood nr st (log_event st1 file r (outcome_of st1 x))) by (eapply ngood_trans; eassumption).
+      assert (G : ngood nr st (log_event st1 file r (outcome_of st1 x))) by exact (ngood_trans _ _ _ _ G1 G2).
       assert (Hc : ngood nr st (fst (run_body rq (log_event st1 file r (outcome_of st1 x)) m file prog)))
         by (eapply ngood_trans; [exact G|apply IH; exact (proj1 G)]).
       destruct x; try exact Hc; try (destruct catch; [exact Hc|exact G]). exact G.
     + apply ngood_refl. exact HI.
+    + pose proof (ngood_ns _ _ (ns_add_lazy st m r) HI) as G. eapply ngood_trans; [exact G|apply IH; exact (proj1 G)].
+    + pose proof (Hrq st (pdir (parse file)) t HI) as G1. destruct (rq st (pdir (parse file)) t) as [st1 x]. cbn [fst] in G1.
+      pose proof (ngood_ns _ _ (ns_log_event st1 file t (outcome_of st1 x)) (proj1 G1)) as G2.
+      set (st2 := log_event st1 file t (outcome_of st1 x)) in *.
+      assert (G : ngood nr st st2) by exact (ngood_trans _ _ _ _ G1 G2).
+      assert (Hc : ngood nr st (fst (run_body rq st2 m file prog))) by (eapply ngood_trans; [exact G|apply IH; exact (proj1 G)]).
+      destruct x as [m'| | | |]; try exact Hc; [|exact G].
+      destruct (owner_file st2 m') as [f'|]; [|exact Hc].
+      remember (run_lazies rq st2 f' (lazies_of st2 m')) as rl eqn:ERL.
+      assert (G3 : ngood nr st2 (fst rl)) by (rewrite ERL; apply run_lazies_ngood; exact (proj1 G)).
+      destruct rl as [st3 oof]. cbn [fst] in G3.
+      assert (G03 : ngood nr st st3) by exact (ngood_trans _ _ _ _ G G3).
+      destruct oof; [exact G03|]. eapply ngood_trans; [exact G03|apply IH; exact (proj1 G03)].
 Qed.
 
 Lemma load_module_ngood st p : NInv nr st -> ngood nr st (fst (load_module fs rq st p)).
